@@ -2,11 +2,15 @@ package rules
 
 import (
 	"fmt"
+	"go/token"
 	"go/types"
+	"os"
 	"sort"
 	"strings"
 
+	"golang.org/x/tools/go/packages"
 	"golang.org/x/tools/go/ssa"
+	"golang.org/x/tools/go/ssa/ssautil"
 
 	"verif/internal/core"
 )
@@ -71,145 +75,227 @@ func checkMutexFields(c *core.Ctx, l *core.Ledger, rule string, rels []string) {
 			if len(methods) == 0 {
 				continue
 			}
-			recvField := func(f *ssa.Function, v ssa.Value) (int, bool) {
-				fa, ok := v.(*ssa.FieldAddr)
-				if !ok || len(f.Params) == 0 || fa.X != ssa.Value(f.Params[0]) {
-					return 0, false
-				}
-				return fa.Field, true
-			}
-			// guarded fields: written by a method
-			guarded := map[int]bool{}
-			for _, f := range methods {
-				core.Instrs(f, func(in ssa.Instruction) {
-					switch x := in.(type) {
-					case *ssa.Store:
-						if k, ok := recvField(f, x.Addr); ok && k != mu && !isAtomic(st.Field(k).Type()) {
-							guarded[k] = true
-						}
-					case *ssa.MapUpdate:
-						if ld, ok := x.Map.(*ssa.UnOp); ok {
-							if k, ok := recvField(f, ld.X); ok {
-								guarded[k] = true
-							}
-						}
-					}
-				})
-			}
-			if len(guarded) == 0 {
-				continue
-			}
-			// lock calls on the receiver's mutex
-			isLockOn := func(f *ssa.Function, in ssa.Instruction, names ...string) bool {
-				call, ok := in.(ssa.CallInstruction)
-				if !ok {
-					return false
-				}
-				o := core.CalleeObj(call)
-				if o == nil || o.Pkg() == nil || o.Pkg().Path() != "sync" {
-					return false
-				}
-				okName := false
-				for _, nm := range names {
-					if o.Name() == nm {
-						okName = true
-					}
-				}
-				if !okName || len(call.Common().Args) == 0 {
-					return false
-				}
-				k, ok := recvField(f, call.Common().Args[0])
-				return ok && k == mu
-			}
-			// which methods are only called with the lock held
-			lockedOnly := map[*ssa.Function]bool{}
-			for _, f := range methods {
-				sites := c.StaticCallSites(f)
-				if len(sites) == 0 {
-					continue
-				}
-				all := true
-				for _, cs := range sites {
-					caller := cs.Parent()
-					isM := false
-					for _, m2 := range methods {
-						if m2 == caller {
-							isM = true
-						}
-					}
-					if !isM {
-						all = false
-						continue
-					}
-					if found, _ := core.PathFromEntryAvoiding(caller, func(in ssa.Instruction) bool { return isLockOn(caller, in, "Lock", "RLock") }, func(in ssa.Instruction) bool { return in == ssa.Instruction(cs) }); found {
-						all = false
-					}
-				}
-				lockedOnly[f] = all
-			}
-			for _, f := range methods {
-				var why []string
-				touches := false
-				core.Instrs(f, func(in ssa.Instruction) {
-					fa, ok := in.(*ssa.FieldAddr)
-					if !ok {
-						return
-					}
-					k, ok := recvField(f, fa)
-					if !ok || !guarded[k] {
-						return
-					}
-					touches = true
-					if lockedOnly[f] {
-						return
-					}
-					if found, _ := core.PathFromEntryAvoiding(f, func(i2 ssa.Instruction) bool { return isLockOn(f, i2, "Lock", "RLock") }, func(i2 ssa.Instruction) bool { return i2 == in }); found {
-						why = append(why, fmt.Sprintf("field %s is accessed at %s without the mutex held", st.Field(k).Name(), c.Rel(in.Pos())))
-					}
-					// ... and not after an explicit unlock
-					core.Instrs(f, func(u ssa.Instruction) {
-						if _, isD := u.(*ssa.Defer); isD || !isLockOn(f, u, "Unlock", "RUnlock") {
-							return
-						}
-						if found, _ := core.PathAvoiding(u, func(i2 ssa.Instruction) bool { return isLockOn(f, i2, "Lock", "RLock") }, func(i2 ssa.Instruction) bool { return i2 == in }); found {
-							why = append(why, fmt.Sprintf("field %s is accessed at %s after the mutex was released", st.Field(k).Name(), c.Rel(in.Pos())))
-						}
-					})
-				})
-				if !touches {
-					continue
-				}
-				if !lockedOnly[f] && len(why) == 0 {
-					// the unlock is deferred, or passed on every path from the lock to a return
-					deferred := false
-					var lock ssa.Instruction
-					core.Instrs(f, func(in ssa.Instruction) {
-						if _, isD := in.(*ssa.Defer); isD && isLockOn(f, in, "Unlock", "RUnlock") {
-							deferred = true
-						}
-						if _, isD := in.(*ssa.Defer); !isD && lock == nil && isLockOn(f, in, "Lock", "RLock") {
-							lock = in
-						}
-					})
-					if !deferred && lock != nil {
-						if leak, _ := core.PathToExitAvoiding(lock, func(in ssa.Instruction) bool { return isLockOn(f, in, "Unlock", "RUnlock") }, false); leak {
-							why = append(why, "a path returns with the mutex still held")
-						}
-					}
-				}
+			for _, v := range mutexTypeProblems(st, mu, methods, c.StaticCallSites, c.Rel, isAtomic) {
 				n++
-				var gs []string
-				for k := range guarded {
-					gs = append(gs, st.Field(k).Name())
-				}
-				sort.Strings(gs)
-				detail := "accesses the fields its methods write (" + strings.Join(gs, ", ") + ") only under the struct's mutex"
-				if lockedOnly[f] {
-					detail = "only called from methods of the type that already hold the mutex"
-				}
-				l.Check(len(why) == 0, rule, core.SSAName(f), c.Rel(f.Pos()), detail, strings.Join(uniq(why), "; "))
+				l.Check(len(v.why) == 0, rule, core.SSAName(v.f), c.Rel(v.f.Pos()), v.detail, strings.Join(v.why, "; "))
 			}
 		}
 	}
 	l.Units["mutex_guarded_methods"] = n
+	l.Witness(rule, mutexWitness(isMutex, isAtomic), "the matcher must flag badSet.has (and only it) in testdata/witness/mutexfields")
+}
+
+type mutexVerdict struct {
+	f      *ssa.Function
+	detail string
+	why    []string
+}
+
+// mutexTypeProblems analyses one mutex-carrying struct type.
+func mutexTypeProblems(st *types.Struct, mu int, methods []*ssa.Function, callSites func(*ssa.Function) []ssa.CallInstruction, rel func(token.Pos) string, isAtomic func(types.Type) bool) []mutexVerdict {
+	var out []mutexVerdict
+	recvField := func(f *ssa.Function, v ssa.Value) (int, bool) {
+		fa, ok := v.(*ssa.FieldAddr)
+		if !ok || len(f.Params) == 0 || fa.X != ssa.Value(f.Params[0]) {
+			return 0, false
+		}
+		return fa.Field, true
+	}
+	// guarded fields: written by a method
+	guarded := map[int]bool{}
+	for _, f := range methods {
+		core.Instrs(f, func(in ssa.Instruction) {
+			switch x := in.(type) {
+			case *ssa.Store:
+				if k, ok := recvField(f, x.Addr); ok && k != mu && !isAtomic(st.Field(k).Type()) {
+					guarded[k] = true
+				}
+			case *ssa.MapUpdate:
+				if ld, ok := x.Map.(*ssa.UnOp); ok {
+					if k, ok := recvField(f, ld.X); ok {
+						guarded[k] = true
+					}
+				}
+			}
+		})
+	}
+	if len(guarded) == 0 {
+		return nil
+	}
+	// lock calls on the receiver's mutex
+	isLockOn := func(f *ssa.Function, in ssa.Instruction, names ...string) bool {
+		call, ok := in.(ssa.CallInstruction)
+		if !ok {
+			return false
+		}
+		o := core.CalleeObj(call)
+		if o == nil || o.Pkg() == nil || o.Pkg().Path() != "sync" {
+			return false
+		}
+		okName := false
+		for _, nm := range names {
+			if o.Name() == nm {
+				okName = true
+			}
+		}
+		if !okName || len(call.Common().Args) == 0 {
+			return false
+		}
+		k, ok := recvField(f, call.Common().Args[0])
+		return ok && k == mu
+	}
+	// which methods are only called with the lock held
+	lockedOnly := map[*ssa.Function]bool{}
+	for _, f := range methods {
+		sites := callSites(f)
+		if len(sites) == 0 {
+			continue
+		}
+		all := true
+		for _, cs := range sites {
+			caller := cs.Parent()
+			isM := false
+			for _, m2 := range methods {
+				if m2 == caller {
+					isM = true
+				}
+			}
+			if !isM {
+				all = false
+				continue
+			}
+			if found, _ := core.PathFromEntryAvoiding(caller, func(in ssa.Instruction) bool { return isLockOn(caller, in, "Lock", "RLock") }, func(in ssa.Instruction) bool { return in == ssa.Instruction(cs) }); found {
+				all = false
+			}
+		}
+		lockedOnly[f] = all
+	}
+	for _, f := range methods {
+		var why []string
+		touches := false
+		core.Instrs(f, func(in ssa.Instruction) {
+			fa, ok := in.(*ssa.FieldAddr)
+			if !ok {
+				return
+			}
+			k, ok := recvField(f, fa)
+			if !ok || !guarded[k] {
+				return
+			}
+			touches = true
+			if lockedOnly[f] {
+				return
+			}
+			if found, _ := core.PathFromEntryAvoiding(f, func(i2 ssa.Instruction) bool { return isLockOn(f, i2, "Lock", "RLock") }, func(i2 ssa.Instruction) bool { return i2 == in }); found {
+				why = append(why, fmt.Sprintf("field %s is accessed at %s without the mutex held", st.Field(k).Name(), rel(in.Pos())))
+			}
+			// ... and not after an explicit unlock
+			core.Instrs(f, func(u ssa.Instruction) {
+				if _, isD := u.(*ssa.Defer); isD || !isLockOn(f, u, "Unlock", "RUnlock") {
+					return
+				}
+				if found, _ := core.PathAvoiding(u, func(i2 ssa.Instruction) bool { return isLockOn(f, i2, "Lock", "RLock") }, func(i2 ssa.Instruction) bool { return i2 == in }); found {
+					why = append(why, fmt.Sprintf("field %s is accessed at %s after the mutex was released", st.Field(k).Name(), rel(in.Pos())))
+				}
+			})
+		})
+		if !touches {
+			continue
+		}
+		if !lockedOnly[f] && len(why) == 0 {
+			// the unlock is deferred, or passed on every path from the lock to a return
+			deferred := false
+			var lock ssa.Instruction
+			core.Instrs(f, func(in ssa.Instruction) {
+				if _, isD := in.(*ssa.Defer); isD && isLockOn(f, in, "Unlock", "RUnlock") {
+					deferred = true
+				}
+				if _, isD := in.(*ssa.Defer); !isD && lock == nil && isLockOn(f, in, "Lock", "RLock") {
+					lock = in
+				}
+			})
+			if !deferred && lock != nil {
+				if leak, _ := core.PathToExitAvoiding(lock, func(in ssa.Instruction) bool { return isLockOn(f, in, "Unlock", "RUnlock") }, false); leak {
+					why = append(why, "a path returns with the mutex still held")
+				}
+			}
+		}
+		var gs []string
+		for k := range guarded {
+			gs = append(gs, st.Field(k).Name())
+		}
+		sort.Strings(gs)
+		detail := "accesses the fields its methods write (" + strings.Join(gs, ", ") + ") only under the struct's mutex"
+		if lockedOnly[f] {
+			detail = "only called from methods of the type that already hold the mutex"
+		}
+		out = append(out, mutexVerdict{f, detail, uniq(why)})
+	}
+	return out
+}
+
+func mutexWitness(isMutex, isAtomic func(types.Type) bool) bool {
+	cfg := &packages.Config{Mode: packages.LoadAllSyntax, Dir: witnessDir(), Env: append(os.Environ(), "GOWORK=off", "GOFLAGS=-mod=mod", "GOPROXY=off")}
+	pkgs, err := packages.Load(cfg, "./testdata/witness/mutexfields")
+	if err != nil || len(pkgs) != 1 || len(pkgs[0].Errors) != 0 {
+		return false
+	}
+	prog, sp := ssautil.AllPackages(pkgs, 0)
+	prog.Build()
+	sites := func(fn *ssa.Function) []ssa.CallInstruction {
+		var out []ssa.CallInstruction
+		for _, m := range sp[0].Members {
+			tm, ok := m.(*ssa.Type)
+			if !ok {
+				continue
+			}
+			ms := prog.MethodSets.MethodSet(types.NewPointer(tm.Type()))
+			for i := 0; i < ms.Len(); i++ {
+				g := prog.MethodValue(ms.At(i))
+				if g == nil {
+					continue
+				}
+				core.Instrs(g, func(in ssa.Instruction) {
+					if call, ok := in.(ssa.CallInstruction); ok && call.Common().StaticCallee() == fn {
+						out = append(out, call)
+					}
+				})
+			}
+		}
+		return out
+	}
+	verdict := map[string]bool{}
+	for _, m := range sp[0].Members {
+		tm, ok := m.(*ssa.Type)
+		if !ok {
+			continue
+		}
+		st, ok := tm.Type().Underlying().(*types.Struct)
+		if !ok {
+			continue
+		}
+		mu := -1
+		for i := 0; i < st.NumFields(); i++ {
+			if isMutex(st.Field(i).Type()) {
+				mu = i
+			}
+		}
+		if mu < 0 {
+			continue
+		}
+		var methods []*ssa.Function
+		ms := prog.MethodSets.MethodSet(types.NewPointer(tm.Type()))
+		for i := 0; i < ms.Len(); i++ {
+			if g := prog.MethodValue(ms.At(i)); g != nil && len(g.Blocks) > 0 && g.Synthetic == "" {
+				methods = append(methods, g)
+			}
+		}
+		for _, v := range mutexTypeProblems(st, mu, methods, sites, func(p token.Pos) string { return prog.Fset.Position(p).String() }, isAtomic) {
+			verdict[tm.Name()+"."+v.f.Name()] = len(v.why) == 0
+		}
+	}
+	if os.Getenv("VDEBUG") != "" {
+		fmt.Fprintln(os.Stderr, "mutex witness:", verdict)
+	}
+	return len(verdict) == 4 && !verdict["badSet.has"] && verdict["badSet.add"] && verdict["goodSet.put"] && verdict["goodSet.has"]
 }
